@@ -132,4 +132,301 @@ theorem dropNextHex_other {g : Nat} (hg : g ≠ f) : ∀ X : Sched, DropOther f 
       · exact .keep _ (dropNextHex_other hg X)
     · exact .keep _ (dropNextHex_other hg X)
 
+/-! ## Removing an exchange of `f` itself -/
+
+theorem rel_both_hex {p1 p2 : Sched} (h1 : bwdDep f p1 = .hex) (h2 : bwdDep f p2 = .hex) :
+    Rel f p1 p2 := ⟨⟨fun _ => h2, fun _ => h1⟩, fun h => absurd h1 h⟩
+
+theorem rel_writer (k : Kern) (b : Bound) (a : Arg) (p1 p2 : Sched) (ha : argOf k f = some a)
+    (hw : a.access.writes = true) : Rel f (.loop k b :: p1) (.loop k b :: p2) := by
+  simp [Rel, bwdDep, bwdWriter, ha, hw]
+
+/-- the replaced exchange: once an exchange of `f` precedes, the next exchange of `f` (met before
+another writer) can go -/
+theorem validFrom_dropNextHex_self : ∀ (X p1 p2 : Sched), bwdDep f p2 = .hex →
+    ValidFrom cfg H env cont f p1 X → ValidFrom cfg H env cont f p2 (dropNextHex f X)
+  | [], _, _, _, _ => by simp [dropNextHex, ValidFrom]
+  | .hex kind g :: r, p1, p2, h2, hv => by
+    simp only [ValidFrom] at hv
+    simp only [dropNextHex]
+    by_cases hc : (g == f && kind != .start) = true
+    · simp only [hc, if_true]
+      have h1 : bwdDep f (.hex kind g :: p1) = .hex := by simp [bwdDep, hc]
+      exact validFrom_congr cfg H env cont f r _ _ (rel_both_hex f h1 h2) hv.2
+    · have hc' : (g == f && kind != .start) = false := by simpa using hc
+      simp only [hc', Bool.false_eq_true, if_false, ValidFrom]
+      refine ⟨?_, ?_⟩
+      · intro hg
+        exfalso
+        obtain ⟨hk, _⟩ := hv.1 hg
+        subst hg hk
+        simp at hc'
+      · apply validFrom_dropNextHex_self r _ _ _ hv.2
+        simp [bwdDep, hc', h2]
+  | .loop k b :: r, p1, p2, h2, hv => by
+    simp only [ValidFrom] at hv
+    simp only [dropNextHex]
+    cases ha : argOf k f with
+    | none =>
+      simp only [ValidFrom]
+      refine ⟨fun a ha' _ => (by first | cases ha' | (rw [ha] at ha'; cases ha')), ?_⟩
+      apply validFrom_dropNextHex_self r _ _ _ hv.2
+      simp [bwdDep, ha, h2]
+    | some a =>
+      simp only
+      by_cases hw : a.access.writes = true
+      · simp only [hw, if_true, ValidFrom]
+        refine ⟨fun a' _ _ => Or.inl h2, ?_⟩
+        exact validFrom_congr cfg H env cont f r _ _ (rel_writer f k b a p1 p2 ha hw) hv.2
+      · simp only [hw, Bool.false_eq_true, if_false, ValidFrom]
+        refine ⟨fun a' _ _ => Or.inl h2, ?_⟩
+        apply validFrom_dropNextHex_self r _ _ _ hv.2
+        simp [bwdDep, ha, hw, h2]
+
+/-- after an exchange of `f` that is no longer required has been removed: the readers it served
+are covered by the (sufficient) previous writer -/
+theorem validFrom_after_removed (L : List Reader) (w' : WriteInfo)
+    (hL : L ≠ [] → GoodList cfg H env cont f L ∧ Suff cfg H env (depthList (L.map infoOf)) w') :
+    ∀ (Y q1 q2 : Sched), bwdDep f q1 = .hex → bwdDep f q2 ≠ .hex → bwdWriter f q2 = some w' →
+    (∀ x ∈ fwdReaders f Y, x ∈ L) →
+    ValidFrom cfg H env cont f q1 Y → ValidFrom cfg H env cont f q2 Y
+  | [], _, _, _, _, _, _, _ => by simp [ValidFrom]
+  | .hex kind g :: r, q1, q2, h1, h2, hw, hsub, hv => by
+    simp only [ValidFrom] at hv ⊢
+    refine ⟨hv.1, ?_⟩
+    by_cases hc : (g == f && kind != .start) = true
+    · have ha : bwdDep f (.hex kind g :: q1) = .hex := by simp [bwdDep, hc]
+      have hb : bwdDep f (.hex kind g :: q2) = .hex := by simp [bwdDep, hc]
+      exact validFrom_congr cfg H env cont f r _ _ (rel_both_hex f ha hb) hv.2
+    · have hc' : (g == f && kind != .start) = false := by simpa using hc
+      apply validFrom_after_removed L w' hL r _ _ _ _ _ _ hv.2
+      · simp [bwdDep, hc', h1]
+      · simp [bwdDep, hc', h2]
+      · simp [bwdWriter, hw]
+      · intro x hx
+        apply hsub
+        simp [fwdReaders, hc', hx]
+  | .loop k b :: r, q1, q2, h1, h2, hw, hsub, hv => by
+    simp only [ValidFrom] at hv ⊢
+    cases ha : argOf k f with
+    | none =>
+      refine ⟨fun a ha' _ => (by first | cases ha' | (rw [ha] at ha'; cases ha')), ?_⟩
+      apply validFrom_after_removed L w' hL r _ _ _ _ _ _ hv.2
+      · simp [bwdDep, ha, h1]
+      · simp [bwdDep, ha, h2]
+      · simp [bwdWriter, ha, hw]
+      · intro x hx
+        apply hsub
+        simp [fwdReaders, ha, hx]
+    | some a =>
+      constructor
+      · intro a' ha' hra
+        cases ha'
+        have hr := hra_reads hra
+        have hmem : (k, b, a) ∈ L := hsub _ (by simp [fwdReaders, ha, hr])
+        have hne : L ≠ [] := by intro h; rw [h] at hmem; simp at hmem
+        obtain ⟨hg, hs⟩ := hL hne
+        right
+        refine ⟨L, hmem, hg, ?_⟩
+        rw [hw]
+        exact hs
+      · by_cases hwr : a.access.writes = true
+        · exact validFrom_congr cfg H env cont f r _ _ (rel_writer f k b a q1 q2 ha hwr) hv.2
+        · apply validFrom_after_removed L w' hL r _ _ _ _ _ _ hv.2
+          · simp [bwdDep, ha, hwr, h1]
+          · simp [bwdDep, ha, hwr, h2]
+          · simp [bwdWriter, ha, hwr, hw]
+          · intro x hx
+            apply hsub
+            by_cases hr : a.access.reads = true
+            · simp [fwdReaders, ha, hr, hwr, hx]
+            · have hwr' : a.access.writes = false := by simpa using hwr
+              have hr' : a.access.reads = false := by simpa using hr
+              cases hacc : a.access <;> simp_all [Access.reads, Access.writes]
+
+theorem go_other {g : Nat} (hg : g ≠ f) : ∀ (X p : Sched), DropOther f X (removeStale.go cfg g p X)
+  | [], _ => by simp [removeStale.go]; exact .nil
+  | .hex kind g' :: X, p => by
+    simp only [removeStale.go]
+    split
+    · rename_i hc
+      simp only [Bool.and_eq_true, beq_iff_eq] at hc
+      split
+      · exact dropOther_refl f _
+      · exact .drop kind (by rw [hc.1]; exact hg) (dropOther_refl f X)
+    · exact .keep _ (go_other hg X _)
+  | .loop k b :: X, p => by
+    simp only [removeStale.go]
+    split
+    · split
+      · exact dropOther_refl f _
+      · exact .keep _ (go_other hg X _)
+    · exact .keep _ (go_other hg X _)
+
+/-- second half of `update_halo_exchanges` for `f` itself: the writer now leaves at least as much
+as before (`hmono`); the first following exchange of `f` is removed when not required -/
+theorem validFrom_go_self (w w' : WriteInfo)
+    (hmono : ∀ req, Suff cfg H env req w → Suff cfg H env req w') :
+    ∀ (X p1 p2 : Sched), bwdDep f p1 ≠ .hex → bwdDep f p2 ≠ .hex →
+    bwdWriter f p1 = some w → bwdWriter f p2 = some w' →
+    (∀ k b, Item.loop k b ∈ X → POK cfg H env cont f k b) →
+    ValidFrom cfg H env cont f p1 X →
+    ValidFrom cfg H env cont f p2 (removeStale.go cfg f p2 X)
+  | [], _, _, _, _, _, _, _, _ => by simp [removeStale.go, ValidFrom]
+  | .hex kind g :: r, p1, p2, h1, h2, hw1, hw2, hall, hv => by
+    simp only [ValidFrom] at hv
+    simp only [removeStale.go]
+    have hall' : ∀ k b, Item.loop k b ∈ r → POK cfg H env cont f k b :=
+      fun k b h => hall k b (by simp [h])
+    by_cases hc : (g == f && kind != .start) = true
+    · simp only [hc, if_true]
+      have hgf : g = f := by
+        simp only [Bool.and_eq_true, beq_iff_eq] at hc
+        exact hc.1
+      have ha : bwdDep f (.hex kind g :: p1) = .hex := by simp [bwdDep, hc]
+      by_cases hreq : (hexRequired cfg f p2 r).1 = true
+      · simp only [hreq, if_true, ValidFrom]
+        refine ⟨hv.1, ?_⟩
+        have hb : bwdDep f (.hex kind g :: p2) = .hex := by simp [bwdDep, hc]
+        exact validFrom_congr cfg H env cont f r _ _ (rel_both_hex f ha hb) hv.2
+      · have hreq' : (hexRequired cfg f p2 r).1 = false := by simpa using hreq
+        simp only [hreq', Bool.false_eq_true, if_false]
+        apply validFrom_after_removed cfg H env cont f (fwdReaders f r) w' _ r _ _ ha h2 hw2
+          (fun x hx => hx) hv.2
+        intro hne
+        obtain ⟨_, hhead⟩ := hv.1 hgf
+        constructor
+        · constructor
+          · cases hfr : fwdReaders f r with
+            | nil => exact absurd hfr hne
+            | cons r1 rs =>
+              rw [hfr] at hhead
+              exact ⟨r1, rs, rfl, hhead, fun hw => fwdReaders_head_writes hfr hw⟩
+          · intro x hx
+            obtain ⟨hloop, hargx, _⟩ := fwdReaders_mem hx
+            exact ⟨hall' _ _ hloop, hargx⟩
+        · have := suff_of_required cfg H env (hexDepth f r) (bwdWriter f p2) hreq'
+          rw [hw2] at this
+          exact this
+    · have hc' : (g == f && kind != .start) = false := by simpa using hc
+      simp only [hc', Bool.false_eq_true, if_false, ValidFrom]
+      refine ⟨?_, ?_⟩
+      · intro hg
+        exfalso
+        obtain ⟨hk, _⟩ := hv.1 hg
+        subst hg hk
+        simp at hc'
+      · apply validFrom_go_self w w' hmono r _ _ _ _ _ _ hall' hv.2
+        · simp [bwdDep, hc', h1]
+        · simp [bwdDep, hc', h2]
+        · simp [bwdWriter, hw1]
+        · simp [bwdWriter, hw2]
+  | .loop k b :: r, p1, p2, h1, h2, hw1, hw2, hall, hv => by
+    simp only [ValidFrom] at hv
+    simp only [removeStale.go]
+    have hall' : ∀ k b, Item.loop k b ∈ r → POK cfg H env cont f k b :=
+      fun k b h => hall k b (by simp [h])
+    have hclause : ∀ a, argOf k f = some a → haloReadAccess cfg k b a = true →
+        ReadOK cfg H env cont f p2 k b a := by
+      intro a ha hra
+      rcases hv.1 a ha hra with hx | ⟨L, hL, hg, hs⟩
+      · exact absurd hx h1
+      · right
+        refine ⟨L, hL, hg, ?_⟩
+        rw [hw1] at hs
+        rw [hw2]
+        exact hmono _ hs
+    cases ha : argOf k f with
+    | none =>
+      simp only [ValidFrom]
+      refine ⟨fun a ha' hra => hclause a ha' hra, ?_⟩
+      apply validFrom_go_self w w' hmono r _ _ _ _ _ _ hall' hv.2
+      · simp [bwdDep, ha, h1]
+      · simp [bwdDep, ha, h2]
+      · simp [bwdWriter, ha, hw1]
+      · simp [bwdWriter, ha, hw2]
+    | some a =>
+      simp only
+      by_cases hwr : a.access.writes = true
+      · simp only [hwr, if_true, ValidFrom]
+        refine ⟨fun a ha' hra => hclause a ha' hra, ?_⟩
+        exact validFrom_congr cfg H env cont f r _ _ (rel_writer f k b a p1 p2 ha hwr) hv.2
+      · simp only [hwr, Bool.false_eq_true, if_false, ValidFrom]
+        refine ⟨fun a ha' hra => hclause a ha' hra, ?_⟩
+        apply validFrom_go_self w w' hmono r _ _ _ _ _ _ hall' hv.2
+        · simp [bwdDep, ha, hwr, h1]
+        · simp [bwdDep, ha, hwr, h2]
+        · simp [bwdWriter, ha, hwr, hw1]
+        · simp [bwdWriter, ha, hwr, hw2]
+
+/-! ## A deeper loop leaves at least as much -/
+
+/-- the new bound of `Dynamo0p3RedundantComputationTrans.apply` -/
+def rcBound (b : Bound) (depth : Option Nat) : Bound :=
+  ⟨match depth with | some d => .halo d | none => .haloMax, b.coloured⟩
+
+theorem writeInfo_dirtyOuter (k : Kern) (b : Bound) (a : Arg) :
+    (writeInfo k b a).dirtyOuter = (!a.disc && !k.dofKernel && b.lvl.isHalo) := by
+  unfold writeInfo
+  split
+  · split <;> rfl
+  · rfl
+
+theorem rcBound_isHalo (b : Bound) (depth : Option Nat) : (rcBound b depth).lvl.isHalo = true := by
+  cases depth <;> rfl
+
+theorem suff_mono (k : Kern) (b : Bound) (a : Arg) (depth : Option Nat)
+    (hval : rcValid k b depth = true) (hwf : b.lvl.wf) (hlvl : lvlOf H b.lvl ≤ H) :
+    ∀ req, Suff cfg H env req (writeInfo k b a) →
+      Suff cfg H env req (writeInfo k (rcBound b depth) a) := by
+  intro req hs
+  obtain ⟨lvl, col⟩ := b
+  obtain ⟨fa, acc, disc, st⟩ := a
+  obtain ⟨dof, args⟩ := k
+  unfold Suff at hs ⊢
+  rcases hs with ⟨r0, h1, h2, h3⟩ | ⟨h1, h2⟩ | h
+  · left
+    refine ⟨r0, h1, h2, ?_⟩
+    rcases h3 with h3 | h3
+    · exact Or.inl h3
+    · right
+      rw [writeInfo_dirtyOuter] at h3 ⊢
+      rw [rcBound_isHalo]
+      simp only [Bool.and_eq_true] at h3 ⊢
+      exact ⟨h3.1, trivial⟩
+  · exfalso
+    cases depth <;> cases lvl <;>
+      simp_all [writeInfo, rcValid, Level.isHalo, Level.litDepth, Level.wf]
+  · cases depth with
+    | none =>
+      cases lvl
+      case halo l =>
+        have hl0 : l ≠ 0 := by simp [Level.wf] at hwf; omega
+        cases disc <;> cases dof <;>
+          simp_all [writeInfo, rcBound, rcValid, cleanAfter, recAfter, Level.isHalo,
+            Level.litDepth, lvlOf] <;> omega
+      all_goals
+        cases disc <;> cases dof <;>
+          simp_all [writeInfo, rcBound, rcValid, cleanAfter, recAfter, Level.isHalo,
+            Level.litDepth, lvlOf]
+    | some d =>
+      have hd1 : 1 ≤ d := by
+        simp only [rcValid, Bool.and_eq_true, decide_eq_true_eq] at hval
+        exact hval.1
+      have hd0 : d ≠ 0 := by omega
+      cases lvl
+      case halo l =>
+        have hl0 : l ≠ 0 := by simp [Level.wf] at hwf; omega
+        have hld : l < d := by
+          have := hval.2
+          simp [Level.isHalo, Level.litDepth] at this
+          omega
+        cases disc <;> cases dof <;>
+          simp_all [writeInfo, rcBound, cleanAfter, recAfter, Level.isHalo,
+            Level.litDepth, lvlOf] <;> omega
+      all_goals
+        cases disc <;> cases dof <;>
+          simp_all [writeInfo, rcBound, rcValid, cleanAfter, recAfter, Level.isHalo,
+            Level.litDepth, lvlOf] <;> (try omega)
+
 end C22
